@@ -109,6 +109,11 @@ def keyArr : NIx → List Nat
   | .arr xs => xs.map Int.toNat
   | .newaxis => []
 
+/-- the integer an all-integer key holds at an axis -/
+def keyInt : NIx → Nat
+  | .int v => v.toNat
+  | _ => 0
+
 /-- the `pos_slice` test on the entries of the uncompressed axes -/
 def posSliceOf (ukeys : List NIx) : Bool :=
   ukeys.all fun k => match k with
@@ -214,7 +219,7 @@ def getSingle (g : GCXS Int) (caxes : List Nat) (key : List NIx) : Int :=
   let order := axisOrder g.shape.length caxes
   let rshape := COO.gather g.shape order
   let C := prod (rshape.drop caxes.length)
-  let rk := order.map fun a => match key.getD a (.int 0) with | .int v => v.toNat | _ => 0
+  let rk := order.map fun a => keyInt (key.getD a (.int 0))      -- `np.array(key)[x._axis_order]`
   let lin := ravel rk rshape
   let row := lin / C
   let col := lin % C
